@@ -25,9 +25,14 @@ def run(ctx):
         if not getattr(e, "fatal", False):
             raise
         ctx.violation("process-killed-by-fatal-error", "a command kills the process on an enumerated small file (stack overflow or fatal runtime error): " + str(e)[:1500], {"stderr": str(e)[:6000]})
+    # the same shapes on the real binary (its own file opening and option loading)
+    resb = ctx.drv("crash-binary", outfile=os.path.join(ctx.scratch, "crashbin_mm.ndjson"), args={"inputs": 6 if q else 60}, env_extra={"VERIF_BIN": ctx.build_binary()})
+    ctx.add("evaluations", resb["runs"])
     # grammar-aware mutations and random bytes (exploration); a fatal crash of the driver process is pinned down
     n = 250 if q else 6000
     fuzz(ctx, n)
+    if ctx.tier == "thorough":
+        vlib.vacuity_check(ctx, "MC_Cli.tla", "MC_Cli_quick.cfg", expect_zero=())
     return vlib.finish(
         ctx, "model_checking",
         rule="TLC: deadlock freedom and termination of Parser.tla (every file <= 3-4 lines over 11 line kinds x 4 callback policies x "
